@@ -20,6 +20,7 @@ mod faulty;
 mod sync_scn;
 mod model_scn;
 mod cloud_scn;
+mod srv_scn;
 mod refcrypto;
 
 pub fn uuid_of(n: u64) -> Uuid {
@@ -86,6 +87,7 @@ fn run_one(scn: &Value) -> Value {
         "model" => model_scn::run(scn),
         "cloud" => cloud_scn::run(scn),
         "seal" => cloud_scn::run_seal(scn),
+        "srvcalls" => srv_scn::run(scn),
         _ => json!({"error": format!("unknown scenario kind {kind}")}),
     }));
     match r {
